@@ -50,11 +50,13 @@ LEVEL = "exploration"
 THOROUGH_WORKERS = 16
 RULE = (
     "hypothesis-generated programs of <= 40 operations (read/readline/readlines/iteration/write/writelines/"
-    "seek/tell/flush/truncate/close/re-open) over a file with 0-20000 initial bytes rich in \\n and \\r (or absent), "
+    "seek/tell/flush/truncate/close/re-open; singles, bursts of consecutive reads, tight read/write alternations, "
+    "optionally a tell() after every step) over a file with 0-20000 initial bytes rich in \\n and \\r (or absent), "
     "mode in r/r+/w/w+/a/a+/wx/w+x each with and without b, bufsize in {-1,0,1,2,7,1024,8192,65536}, pipelined on/off; "
-    "run on SFTPClient.open() against a production SFTPServer and on a local twin file; non-trivial = the executed "
+    "run on SFTPClient.open() against a production SFTPServer and on a local twin file; transitions covered by an open "
+    "known finding get a seek(0,1)/flush() inserted (counted under excluded_by_construction); non-trivial = the executed "
     "program has a read->write or write->read transition (possibly across a seek) on a handle opened in a '+' or "
-    "append mode and both opens succeeded; distinct by SHA-1 of the sanitised case"
+    "append mode and an open succeeded; distinct by SHA-1 of the sanitised case"
 )
 
 # --------------------------------------------------------------------------- exclusions
@@ -833,7 +835,7 @@ def _first_diff(a, b):
 
 
 def run(ctx):
-    ctx.set_budget(70, 880)
+    ctx.set_budget(70, 1200)
     excl = active_exclusions()
     ctx.note("exclusions_active", sorted(excl))
     ctx.assume("twin of an append-mode file is opened unbuffered (OS append semantics, as paramiko documents)")
